@@ -27,7 +27,7 @@ EXPLANATION = ("finish() is the identity on a finished action and sets the flag 
                "lifted to all programs; the staged start/end dicts are computed exactly (startDict/succDict/failDict) for healthy destinations and "
                "shown to be followed only by failure reports otherwise; __exit__ contributes no outcome (exc_identity)")
 
-PROFILE = dict(p_typed=0.0, p_ser_fail=0.0, p_missing_field=0.0, p_late_add=0.0, p_remove=0.0, n_dests=(2, 4), p_dest_fail=0.0,
+PROFILE = dict(p_ext_reserved=0.3, p_typed=0.0, p_ser_fail=0.0, p_missing_field=0.0, p_late_add=0.0, p_remove=0.0, n_dests=(2, 4), p_dest_fail=0.0,
                p_globals=0.12, p_extractor=0.6, p_ext_fail=0.35, p_str_raises=0.22, p_handles=0.5, p_remote=0.12, p_raise=0.5,
                p_probe=0.05, p_task=0.1, max_stmts=20)
 
